@@ -235,7 +235,7 @@ fn eval(c: &mut Ctx, case: &Case, counting: bool) -> Vec<(String, String)> {
 }
 
 pub fn run(ctx: &mut Ctx) {
-    ctx.rule = "blocks of 0..24 signed transactions (incl. golden tickets) with owners from a small key set and a generated key list; exhaustive: for n <= N transactions every one of the 2^n patterns of which transactions touch the key list (hence every pattern of adjacent placeholders to merge), random beyond. oracle: id, hash, signature and every header field of the lite block equal the full block's; every transaction paying to or spending from a listed key is contained unchanged and in order; placeholders account for exactly the omitted transactions; the commitment recomputed from the lite block's transactions equals the header's, both as generated and after the lite block crossed the wire format; the hash survives the wire. non-trivial = at least one placeholder and one contained transaction; distinct by case digest".into();
+    ctx.rule = "blocks of 0..24 signed transactions (incl. golden tickets) with owners from a small key set and a generated key list; exhaustive: for n <= N transactions every one of the 2^n patterns of which transactions touch the key list (hence every pattern of adjacent placeholders to merge), random beyond. oracle: id, hash, signature and every header field of the lite block equal the full block's; every transaction paying to or spending from a listed key is contained unchanged and in order; placeholders account for exactly the omitted transactions; the commitment recomputed from the lite block's transactions equals the header's, both as generated and after the lite block crossed the wire format; the hash survives the wire. (b) the HTTP route of saito-rust that serves lite blocks: the real warp server of saito_rust::network_controller is started on 127.0.0.1 over generated block files (a fresh server per sequence); generated sequences of requests for a client key (hex / base58), key-list updates of the requesting peer and requests for unknown blocks; every served answer must be byte-identical to generate_lite_block(registered key list + key) of the stored block. non-trivial = (a) at least one placeholder and one contained transaction, (b) a key-list change between two requests for one block; distinct by case digest".into();
     // exhaustive touch patterns: transaction i touches the list iff bit i of the pattern is set
     let nmax = ctx.tier.pick(8usize, 11);
     let mut count = 0u64;
@@ -253,9 +253,14 @@ pub fn run(ctx: &mut Ctx) {
     let strat = (proptest::collection::vec((0u8..5, 0u8..5, prop_oneof![9 => Just(false), 1 => Just(true)]), 0..25), proptest::collection::vec(0u8..6, 0..4)).prop_map(|(txs, keylist)| Case { txs, keylist });
     let cases = ctx.tier.pick(6000u32, 60_000);
     pbt_run(ctx, "random_blocks", cases, strat, |c, case, counting| eval(c, case, counting));
+    // (b) the route of saito-rust that serves lite blocks, over real HTTP
+    crate::props::c18_route::run(ctx);
 }
 
 pub fn replay(ctx: &mut Ctx, v: &serde_json::Value) -> bool {
+    if let Some(ops) = v.get("route_case") {
+        return crate::props::c18_route::replay(ctx, ops);
+    }
     let case: Case = match serde_json::from_value(v.get("case").cloned().unwrap_or(v.clone())) {
         Ok(c) => c,
         Err(_) => return false,
